@@ -1,24 +1,22 @@
-\* generated by lib/slices.py from pair slice 'pair_v50_rm3' - do not edit
-SPECIFICATION Spec
-VIEW view
+\* generated by lib/slices.py from pair liveness slice 'pair_live_v311' - do not edit
+SPECIFICATION FairSpec
 CHECK_DEADLOCK FALSE
-PROPERTY NoViolation
-ACTION_CONSTRAINT PrintEdge
+PROPERTY Terminates
 CONSTANTS
- Ver = "v50"
+ Ver = "v311"
  AutoPub = TRUE
  AutoPing = TRUE
  KA = 0
- SRM = 1
+ SRM = 99999
  CRM = 99999
  STAM = 99999
  CTAM = 99999
- MaxOps = 3
+ MaxOps = 2
  MaxLoss = 1
  MaxFire = 0
- Ops = {"pub1", "pub2"}
- Sides = {"c"}
+ Ops = {"pub0", "pub1", "pub2"}
+ Sides = {"c", "s"}
  AliasModes = {"none"}
  Chunks = FALSE
  EndpointProps = {"C05", "C06", "C07", "C08", "C12", "C13", "C14", "C15", "C19"}
- Record = TRUE
+ Record = FALSE
